@@ -504,6 +504,9 @@ func local() []cat.Program {
 				"arr":      vals.List("[3]int", n(3), n(1), n(2)),
 				"arr2":     vals.List("[2]string", s("x2"), s("x1"))}},
 
+		// text beyond ASCII: see unicodeProgram (rows_test.go)
+		unicodeProgram(),
+
 		// retype twins: DIFFERENT files with the SAME template text (so the same expression texts)
 		// whose data gives the same names differently typed values; on the shared engine they meet
 		// in both orders. Only expressions that are valid for every typing are used here.
